@@ -125,6 +125,8 @@ def impl_call(case):
     op = case['op']
     if op == 'reject':
         w = np.array([O.fl(x) for x in case['w']])
+        if case.get('dtype'):
+            w = w.astype(case['dtype'])     # the same numbers held in another array type
         if case.get('scalar'):
             w = float(w[0])
         if case.get('unit'):
@@ -257,6 +259,11 @@ def reject_cases():
     for entry in entry_points_names():
         for a in arrays:
             out.append({'op': 'reject', 'entry': entry, 'w': qs(a)})
+            # the same numbers in other array types (all entries are whole numbers, so unsigned types hold the
+            # non-negative ones exactly)
+            if len(a) >= 2:
+                for dt in (('uint16', 'uint32', 'uint64') if all(x >= 0 for x in a) else ()) + ('int32', 'int64', 'float32'):
+                    out.append({'op': 'reject', 'entry': entry, 'w': qs(a), 'dtype': dt})
             # the same numbers as a Quantity (the spelling of the unit must not open a way around validation)
             if len(a) <= 3 and all(x != 0 for x in a):
                 for unit in ('AA', 'nm'):
@@ -322,7 +329,7 @@ def run(rep):
     rep.exhaustive = False
     rep.rule = ('rejection half, exhaustive: all arrays of length 1..4 over {-1000, 0, 1000, 2000, 3000} x every public entry point with a '
                 'sampling-wavelength argument (%d of them), plus the same arrays in other wavelength units / as scalars (sampled) and '
-                'the same arrays (up to 3 entries) as Quantities in Angstrom and nm; Quantities in units that are no wavelength; equivariance half: each entry point on random valid grids in Angstrom numbers '
+                'the same arrays held as uint16/32/64, int32/64 and float32 arrays; the same arrays (up to 3 entries) as Quantities in Angstrom and nm; Quantities in units that are no wavelength; equivariance half: each entry point on random valid grids in Angstrom numbers '
                 'and three of {AA, nm, micron, m, cm, km, Hz, THz, 1/micron, 1/cm} x ascending/descending, compared pairwise; a quarter of the grids finely sampled (2^-4 .. 2^-10 Angstrom spacing). '
                 'Non-trivial: the array is invalid (must be rejected) or the operation returned a value in every unit and order.' % len(entry_points_names()))
 
